@@ -121,12 +121,13 @@ def run (flt : Nat → Bool) : Prog → Nat → Dir → List Step × Exit
 /-! ### builderWriteAll -/
 
 /-- `builderWriteAll(base.tmp, content)`: CreateTemp, Chmod, Write, Close, Rename; any failure returns the error
-    (the random-named temp file is left behind) -/
+    (the random-named temp file is left behind). `defer f.Close()` is registered after Chmod, so a failed Write is
+    followed by a Close whose result is ignored; the later failure paths find the file already closed. -/
 def writeTmp (base : String) (content : File) (fail : Prog) (k : Prog) : Prog :=
   let t : Path := ⟨.tmptmp, base⟩
   .op (.create t) fun r => if r ≠ .ok then fail else
   .op (.fdop "chmod" t) fun r => if r ≠ .ok then fail else
-  .op (.fdop "write" t) fun r => if r ≠ .ok then fail else
+  .op (.fdop "write" t) fun r => if r ≠ .ok then (.op (.fdop "close" t) fun _ => fail) else
   .op (.fdop "close" t) fun r => if r ≠ .ok then fail else
   .op (.rename t ⟨.tmp, base⟩ (some content)) fun r => if r ≠ .ok then fail else k
 
